@@ -193,9 +193,16 @@ def run(P: Program, R: Report, tier: str) -> None:
             if node == "None":
                 continue
             n_ret += 1
+            if "expr@" in node or node.startswith("ite("):
+                R.undecided("R03.3", gtn, gtn.node, f"get_track_neighbors: a returned {role} is strictly on its side of the query time",
+                            f"the returned value `{strip(node)[:50]}` is computed in a form the interpreter does not follow")
+                continue
             R.check(lt(node), "R03.3", gtn, gtn.node,
                     f"get_track_neighbors: a returned {role} is strictly {'before' if role == 'predecessor' else 'after'} the query time",
                     f"on a path returning {strip(node)[:40]} as {role} no strict comparison with `{tparam}` was passed: "
                     "a node of the same frame can become a track neighbour (same-frame edge)", via="facts")
     R.floor("R03.3", "non-None neighbours returned on some path", n_ret, 2)
+    from .neighbours import nearest_neighbour
+
+    nearest_neighbour(P, R, "R03.4")
     c02.history_shape(P, R)
